@@ -410,6 +410,16 @@ func (p *pkgInfo) parsePlanOf(fd *ast.FuncDecl, depth int) ([]tstep, bool) {
 			if p.src(s.Results[0]) == "nil" {
 				continue
 			}
+			// delegation to the embedded struct: `return rr.NSEC.parse(c, o)` (NXT)
+			if c, ok := s.Results[0].(*ast.CallExpr); ok && depth == 0 && len(stmts) == 1 && len(c.Args) == 2 && p.src(c.Args[0]) == "c" && p.src(c.Args[1]) == "o" {
+				if se, ok := c.Fun.(*ast.SelectorExpr); ok && se.Sel.Name == "parse" && rrField(se.X) != "" {
+					if sub := p.funcs[rrField(se.X)+".parse"]; sub != nil {
+						if st := p.structs()[strings.TrimSuffix(funcRecv(fd), "")]; st != nil && len(st.Fields.List) == 1 && len(st.Fields.List[0].Names) == 0 && p.src(st.Fields.List[0].Type) == rrField(se.X) {
+							return p.parsePlanOf(sub, 1)
+						}
+					}
+				}
+			}
 			// delegation: return rr.parseDS(c, o, "DS")
 			if c, ok := s.Results[0].(*ast.CallExpr); ok && depth == 0 {
 				if se, ok := c.Fun.(*ast.SelectorExpr); ok && rrField(se) != "" {
@@ -643,6 +653,21 @@ func (p *pkgInfo) printPlanOf(fd *ast.FuncDecl, typ string) ([]tstep, bool) {
 		return nil, false // pieces that are not printed
 	}
 	return out, true
+}
+
+// funcRecv: the receiver's type name of a method declaration (`*T` -> T)
+func funcRecv(fd *ast.FuncDecl) string {
+	if fd.Recv == nil || len(fd.Recv.List) != 1 {
+		return ""
+	}
+	t := fd.Recv.List[0].Type
+	if st, ok := t.(*ast.StarExpr); ok {
+		t = st.X
+	}
+	if id, ok := t.(*ast.Ident); ok {
+		return id.Name
+	}
+	return ""
 }
 
 // isTypeLoop: `for _, t := range rr.TypeBitMap { s += " " + Type(t).String() }`
